@@ -52,4 +52,19 @@ mutual
         else nodeChildKids lang anon pid parentAddr n rest pos' si' (k + 1) (i - gc)
 end
 
+mutual
+  /-- Hypothesis of `named_child_spec`: a visible (or aliased) node that is NOT named has no
+  children.  (`ts_node__child(…, include_anonymous = false)` would otherwise descend into such a
+  node through its `named_child_count` and return a grandchild.)  Evaluated on every real tree. -/
+  def anonLeafOK (lang : Lang) : Tree → Nat → Bool
+    | .mk d kids, al =>
+      (if (d.visible || al != 0) && !(if al != 0 then (lang.symMeta al).named else d.named) then kids.isEmpty else true) &&
+        anonLeafOKKids lang kids d.productionId 0
+  def anonLeafOKKids (lang : Lang) : List Tree → Nat → Nat → Bool
+    | [], _, _ => true
+    | c :: rest, pid, si =>
+      anonLeafOK lang c (if c.data.extra then 0 else lang.aliasAt pid si) &&
+        anonLeafOKKids lang rest pid (if c.data.extra then si else si + 1)
+end
+
 end TsVerif.C06
